@@ -28,6 +28,7 @@ import (
 	"testing/synctest"
 	"time"
 
+	"github.com/libp2p/go-libp2p-kbucket/peerdiversity"
 	recpb "github.com/libp2p/go-libp2p-record/pb"
 	"github.com/libp2p/go-libp2p/core/connmgr"
 	"github.com/libp2p/go-libp2p/core/event"
@@ -39,6 +40,7 @@ import (
 	"github.com/libp2p/go-libp2p/p2p/host/eventbus"
 	"github.com/libp2p/go-libp2p/p2p/host/peerstore/pstoremem"
 	ma "github.com/multiformats/go-multiaddr"
+	manet "github.com/multiformats/go-multiaddr/net"
 	mh "github.com/multiformats/go-multihash"
 	"google.golang.org/protobuf/encoding/protowire"
 	"google.golang.org/protobuf/proto"
@@ -665,14 +667,15 @@ func c10DescMsg(m *pb.Message) any {
 
 type c10Host struct {
 	host.Host
-	id      peer.ID
-	ps      peerstore.Peerstore
-	bus     event.Bus
-	net     *c10Net
-	mu      sync.Mutex
-	streams []*c10Stream // scripted streams handed out by NewStream, in order
-	opened  int
+	id        peer.ID
+	ps        peerstore.Peerstore
+	bus       event.Bus
+	net       *c10Net
+	mu        sync.Mutex
+	streams   []*c10Stream // scripted streams handed out by NewStream, in order
+	opened    int
 	connectOK map[peer.ID]bool
+	connAddr  map[peer.ID]ma.Multiaddr // remote address of the (only) connection to a peer
 }
 
 func c10NewHost(id peer.ID) *c10Host {
@@ -680,7 +683,7 @@ func c10NewHost(id peer.ID) *c10Host {
 	if err != nil {
 		panic(err)
 	}
-	h := &c10Host{id: id, ps: ps, bus: eventbus.NewBus(), connectOK: map[peer.ID]bool{}}
+	h := &c10Host{id: id, ps: ps, bus: eventbus.NewBus(), connectOK: map[peer.ID]bool{}, connAddr: map[peer.ID]ma.Multiaddr{}}
 	h.net = &c10Net{h: h}
 	return h
 }
@@ -726,11 +729,30 @@ type c10Net struct {
 func (n *c10Net) Connectedness(peer.ID) network.Connectedness { return network.NotConnected }
 func (n *c10Net) Peers() []peer.ID                            { return nil }
 func (n *c10Net) Conns() []network.Conn                       { return nil }
-func (n *c10Net) ConnsToPeer(peer.ID) []network.Conn          { return nil }
-func (n *c10Net) LocalPeer() peer.ID                          { return n.h.id }
-func (n *c10Net) Peerstore() peerstore.Peerstore              { return n.h.ps }
-func (n *c10Net) Notify(network.Notifiee)                     {}
-func (n *c10Net) StopNotify(network.Notifiee)                 {}
+func (n *c10Net) ConnsToPeer(p peer.ID) []network.Conn {
+	n.h.mu.Lock()
+	defer n.h.mu.Unlock()
+	if a, ok := n.h.connAddr[p]; ok {
+		return []network.Conn{&c10Conn{remote: p, addr: a}}
+	}
+	return nil
+}
+func (n *c10Net) LocalPeer() peer.ID             { return n.h.id }
+func (n *c10Net) Peerstore() peerstore.Peerstore { return n.h.ps }
+func (n *c10Net) Notify(network.Notifiee)        {}
+func (n *c10Net) StopNotify(network.Notifiee)    {}
+
+// c10Conn: what the routing-table diversity filter reads of a connection.
+type c10Conn struct {
+	network.Conn
+	remote peer.ID
+	addr   ma.Multiaddr
+}
+
+func (c *c10Conn) RemotePeer() peer.ID           { return c.remote }
+func (c *c10Conn) RemoteMultiaddr() ma.Multiaddr { return c.addr }
+func (c *c10Conn) Stat() network.ConnStats       { return network.ConnStats{} }
+func (c *c10Conn) IsClosed() bool                { return false }
 
 // c10Stream: a scripted stream.  Reads deliver `in`, then either fail with
 // `after` or block until the stream is reset/closed.
@@ -784,22 +806,22 @@ func (s *c10Stream) Write(p []byte) (int, error) {
 	s.mu.Unlock()
 	return len(p), nil
 }
-func (s *c10Stream) shut()                               { s.once.Do(func() { close(s.closed) }) }
-func (s *c10Stream) Close() error                        { s.shut(); return nil }
-func (s *c10Stream) CloseRead() error                    { return nil }
-func (s *c10Stream) CloseWrite() error                   { return nil }
-func (s *c10Stream) Reset() error                        { s.mu.Lock(); s.resets++; s.mu.Unlock(); s.shut(); return nil }
+func (s *c10Stream) shut()                                        { s.once.Do(func() { close(s.closed) }) }
+func (s *c10Stream) Close() error                                 { s.shut(); return nil }
+func (s *c10Stream) CloseRead() error                             { return nil }
+func (s *c10Stream) CloseWrite() error                            { return nil }
+func (s *c10Stream) Reset() error                                 { s.mu.Lock(); s.resets++; s.mu.Unlock(); s.shut(); return nil }
 func (s *c10Stream) ResetWithError(network.StreamErrorCode) error { return s.Reset() }
-func (s *c10Stream) SetDeadline(time.Time) error         { return nil }
-func (s *c10Stream) SetReadDeadline(time.Time) error     { return nil }
-func (s *c10Stream) SetWriteDeadline(time.Time) error    { return nil }
-func (s *c10Stream) Protocol() protocol.ID               { return "/verif/kad/1.0.0" }
-func (s *c10Stream) ID() string                          { return "c10" }
+func (s *c10Stream) SetDeadline(time.Time) error                  { return nil }
+func (s *c10Stream) SetReadDeadline(time.Time) error              { return nil }
+func (s *c10Stream) SetWriteDeadline(time.Time) error             { return nil }
+func (s *c10Stream) Protocol() protocol.ID                        { return "/verif/kad/1.0.0" }
+func (s *c10Stream) ID() string                                   { return "c10" }
 
 // ---------------------------------------------------------------- lookup cases
 
 // c10RunLookup: a real lookup with one seed peer whose response is `reply`.
-func c10RunLookup(t *testing.T, i int, seed uint64, r *vfRand, k int, reply *pb.Message, sendErr bool, selfID, target []byte, accept map[string]bool, how string) c10Case {
+func c10RunLookup(t *testing.T, i int, seed uint64, r *vfRand, k int, reply *pb.Message, sendErr bool, selfID, target []byte, accept map[string]bool, limit int, how string) c10Case {
 	d := c10NewDict()
 	d.tag(nil)
 	h := c10NewHost(peer.ID(selfID))
@@ -816,10 +838,46 @@ func c10RunLookup(t *testing.T, i int, seed uint64, r *vfRand, k int, reply *pb.
 		replyCoq = fmt.Sprintf("(RMsg (Some %s))", d.msg(reply))
 		before = c10CloneMsg(reply)
 	}
-	dht, err := New(h, Mode(ModeClient), DisableAutoRefresh(), disableFixLowPeersRoutine(t), BucketSize(k),
+	opts := []Option{Mode(ModeClient), DisableAutoRefresh(), disableFixLowPeersRoutine(t), BucketSize(k),
 		ProtocolPrefix("/verif"),
 		QueryFilter(func(_ any, ai peer.AddrInfo) bool { return accept[string(ai.ID)] }),
-		WithCustomMessageSender(func(host.Host, []protocol.ID) pb.MessageSenderWithDisconnect { return sender }))
+		WithCustomMessageSender(func(host.Host, []protocol.ID) pb.MessageSenderWithDisconnect { return sender })}
+	if limit > 0 {
+		// the routing-table diversity filter: its maxForTable also bounds the peers
+		// one response may name per IP group (query.go:187-194)
+		h.connAddr[seedPeer] = ma.StringCast("/ip4/203.0.113.7/tcp/4001")
+		opts = append(opts, RoutingTablePeerDiversityFilter(NewRTPeerDiversityFilter(h, 100, limit)))
+	}
+	// IP group of every decodable address of the response (library oracle)
+	gm := []string{}
+	if reply != nil {
+		seen := map[int]bool{}
+		for _, p := range reply.CloserPeers {
+			if p == nil {
+				continue
+			}
+			for _, ab := range p.Addrs {
+				m, err := ma.NewMultiaddrBytes(ab)
+				if err != nil {
+					continue
+				}
+				ip, err := manet.ToIP(m)
+				if err != nil {
+					continue
+				}
+				g := peerdiversity.IPGroupKey(ip)
+				if len(g) == 0 {
+					continue
+				}
+				at := d.tag(append([]byte("addr:"), m.Bytes()...))
+				if !seen[at] {
+					seen[at] = true
+					gm = append(gm, fmt.Sprintf("(%d%%N, %d%%N)", at, d.tag(append([]byte("grp:"), []byte(g)...))))
+				}
+			}
+		}
+	}
+	dht, err := New(h, opts...)
 	if err != nil {
 		panic(err)
 	}
@@ -876,6 +934,12 @@ func c10RunLookup(t *testing.T, i int, seed uint64, r *vfRand, k int, reply *pb.
 		n = len(reply.CloserPeers)
 	}
 	sig := []string{"lookup", kind, how, fmt.Sprintf("k=%d", k)}
+	if limit > 0 {
+		sig = append(sig, "diversity")
+		if gotResp && reply != nil && len(heard) < len(reply.CloserPeers) {
+			sig = append(sig, "fewer-heard")
+		}
+	}
 	switch {
 	case sendErr:
 	case n > 2*k:
@@ -892,11 +956,11 @@ func c10RunLookup(t *testing.T, i int, seed uint64, r *vfRand, k int, reply *pb.
 		sig = append(sig, c10ReplySig(before, reply)...)
 	}
 	desc := map[string]any{"case": i, "seed": seed, "kind": "lookup", "how": how, "k": k, "closer_n": n, "send_err": sendErr,
-		"heard_n": len(heard), "reply": c10DescMsg(before), "outcome": kind}
+		"heard_n": len(heard), "reply": c10DescMsg(before), "outcome": kind, "diversity_limit": limit}
 	if lerr != nil {
 		desc["lookup_error"] = lerr.Error()
 	}
-	cc := c10Case{coq: fmt.Sprintf("{| c_op := OLookup %d %s %s %s %s;\n   c_impl := %s |}", k, d.bstr(selfID), d.bstr(target), vfNList(acc), replyCoq, obs),
+	cc := c10Case{coq: fmt.Sprintf("{| c_op := OLookup %d %s %s %s %d %s %s;\n   c_impl := %s |}", k, d.bstr(selfID), d.bstr(target), vfNList(acc), limit, vfList(gm), replyCoq, obs),
 		desc: desc, sig: strings.Join(sig, ",")}
 	if gotResp && len(heard) > 2*k {
 		cc.fail = fmt.Sprintf("%d peers of one response entered a lookup with bucket size %d", len(heard), k)
@@ -1259,10 +1323,21 @@ func c10Plan(t *testing.T, seed uint64, n int, thorough bool) []c10Gen {
 			if ln < 0 {
 				continue
 			}
-			add(func(i int, r *vfRand) c10Case { return c10LookupCase(t, i, seed, r, k, ln, false, "domain") })
+			add(func(i int, r *vfRand) c10Case { return c10LookupCase(t, i, seed, r, k, ln, false, 0, 0, "domain") })
+			if k <= 5 && ln > 0 {
+				// the same with the routing-table diversity filter configured: every peer in
+				// its own IP group, and peers crowded into few groups
+				for _, lim := range []int{1, 3} {
+					lim := lim
+					add(func(i int, r *vfRand) c10Case { return c10LookupCase(t, i, seed, r, k, ln, false, lim, 0, "domain") })
+					add(func(i int, r *vfRand) c10Case {
+						return c10LookupCase(t, i, seed, r, k, ln, false, lim, 1+r.Intn(4), "domain")
+					})
+				}
+			}
 		}
 		k := k
-		add(func(i int, r *vfRand) c10Case { return c10LookupCase(t, i, seed, r, k, 3, true, "domain") })
+		add(func(i int, r *vfRand) c10Case { return c10LookupCase(t, i, seed, r, k, 3, true, 0, 0, "domain") })
 	}
 	// 4. the real message sender on scripted streams
 	reads := []string{"msg", "garbage", "fail-reset", "fail-eof", "fail-toolarge", "fail-truncated", "silent"}
@@ -1293,7 +1368,9 @@ func c10Plan(t *testing.T, seed uint64, n int, thorough bool) []c10Gen {
 		sc := sc
 		for _, k := range []string{"closest", "ping"} {
 			k := k
-			add(func(i int, r *vfRand) c10Case { return c10StreamCase(t, i, seed, r, k, sc.cancel, sc.a1, sc.a2, "domain") })
+			add(func(i int, r *vfRand) c10Case {
+				return c10StreamCase(t, i, seed, r, k, sc.cancel, sc.a1, sc.a2, "domain")
+			})
 		}
 	}
 	// 5. random cases up to n
@@ -1320,7 +1397,14 @@ func c10Plan(t *testing.T, seed uint64, n int, thorough bool) []c10Gen {
 			case x < 85:
 				ks := []int{1, 2, 3, 4, 7, 20}
 				k := ks[r.Intn(len(ks))]
-				return c10LookupCase(t, i, seed, r, k, r.Intn(3*k+3), r.Chance(5), "random")
+				lim, pool := 0, 0
+				if r.Chance(40) {
+					lim = 1 + r.Intn(3)
+					if r.Bool() {
+						pool = 1 + r.Intn(5)
+					}
+				}
+				return c10LookupCase(t, i, seed, r, k, r.Intn(3*k+3), r.Chance(5), lim, pool, "random")
 			default:
 				a := func() c10Attempt {
 					return c10Attempt{Prep: !r.Chance(10), Write: !r.Chance(15), Read: reads[r.Intn(len(reads))]}
@@ -1333,7 +1417,22 @@ func c10Plan(t *testing.T, seed uint64, n int, thorough bool) []c10Gen {
 	return plan
 }
 
-func c10LookupCase(t *testing.T, i int, seed uint64, r *vfRand, k, ln int, sendErr bool, how string) c10Case {
+// limit: maxForTable of a routing-table diversity filter (0: none).  pool: with a
+// filter, the number of /16 blocks the addresses are drawn from (0: every address
+// in a block of its own).
+func c10LookupCase(t *testing.T, i int, seed uint64, r *vfRand, k, ln int, sendErr bool, limit, pool int, how string) c10Case {
+	nAddr := 0
+	okAddr := func() []byte {
+		if limit == 0 {
+			return c10OkAddr(r, 8)
+		}
+		nAddr++
+		blk := nAddr
+		if pool > 0 {
+			blk = r.Intn(pool)
+		}
+		return ma.StringCast(fmt.Sprintf("/ip4/%d.%d.%d.%d/tcp/%d", 60+blk/200, 1+blk%200, r.Intn(256), 1+r.Intn(254), 1+r.Intn(65000))).Bytes()
+	}
 	selfID := c10PeerID(r)
 	target := c10PeerID(r)
 	accept := map[string]bool{}
@@ -1343,15 +1442,18 @@ func c10LookupCase(t *testing.T, i int, seed uint64, r *vfRand, k, ln int, sendE
 		var p *pb.Message_Peer
 		switch x := r.Intn(100); {
 		case x < 4:
-			p = &pb.Message_Peer{Id: selfID, Addrs: [][]byte{c10OkAddr(r, 8)}}
+			p = &pb.Message_Peer{Id: selfID, Addrs: [][]byte{okAddr()}}
 		case x < 8:
-			p = &pb.Message_Peer{Id: target, Addrs: [][]byte{c10OkAddr(r, 8)}}
+			p = &pb.Message_Peer{Id: target, Addrs: [][]byte{okAddr()}}
 		case x < 14 && len(ids) > 0:
-			p = &pb.Message_Peer{Id: ids[r.Intn(len(ids))], Addrs: [][]byte{c10OkAddr(r, 8)}}
+			p = &pb.Message_Peer{Id: ids[r.Intn(len(ids))], Addrs: [][]byte{okAddr()}}
 		case x < 24:
 			p = c10ShapePeer(r, []int{1, 3, 6, 8, 4}[r.Intn(5)], nil)
+			if limit > 0 && r.Bool() {
+				p.Addrs = append(p.Addrs, okAddr()) // a second (or only decodable) address, possibly in another block
+			}
 		default:
-			p = &pb.Message_Peer{Id: c10PeerID(r), Addrs: [][]byte{c10OkAddr(r, 8)}, Connection: pb.Message_ConnectionType(r.Intn(4))}
+			p = &pb.Message_Peer{Id: c10PeerID(r), Addrs: [][]byte{okAddr()}, Connection: pb.Message_ConnectionType(r.Intn(4))}
 		}
 		ids = append(ids, p.Id)
 		if !r.Chance(12) && !bytes.Equal(p.Id, target) {
@@ -1359,7 +1461,7 @@ func c10LookupCase(t *testing.T, i int, seed uint64, r *vfRand, k, ln int, sendE
 		}
 		m.CloserPeers = append(m.CloserPeers, p)
 	}
-	return c10RunLookup(t, i, seed, r, k, m, sendErr, selfID, target, accept, how)
+	return c10RunLookup(t, i, seed, r, k, m, sendErr, selfID, target, accept, limit, how)
 }
 
 func c10StreamCase(t *testing.T, i int, seed uint64, r *vfRand, kind string, cancel time.Duration, a1, a2 c10Attempt, how string) c10Case {
